@@ -31,7 +31,8 @@ type Req struct {
 	Both    bool   `json:"both,omitempty"` // needs pull and push
 	Desired string `json:"desired,omitempty"`
 	SleepMs int    `json:"sleep_ms"`
-	Batch   int    `json:"batch,omitempty"` // requests with the same non-zero batch id run concurrently
+	Batch   int    `json:"batch,omitempty"`    // requests with the same non-zero batch id run concurrently
+	StartMs int    `json:"start_ms,omitempty"` // within a batch: the request starts this long after the batch
 }
 
 type Script struct {
@@ -112,7 +113,11 @@ func run(s Script, v *vt.V) {
 				var wg sync.WaitGroup
 				for k := i; k < j; k++ {
 					wg.Add(1)
-					go func(k int) { defer wg.Done(); doOne(k, s.Reqs[k]) }(k)
+					go func(k int) {
+						defer wg.Done()
+						time.Sleep(time.Duration(s.Reqs[k].StartMs) * time.Millisecond)
+						doOne(k, s.Reqs[k])
+					}(k)
 				}
 				wg.Wait()
 				if !checkArrivals(w, hosts, w.Log[start:], cache, v, fmt.Sprintf("concurrent batch %d", rq.Batch), false) {
@@ -284,6 +289,17 @@ func checkArrivals(w *aw.World, hosts []aw.HostSpec, log []*aw.Arrival, cache ma
 				return false
 			}
 			scope := aw.ParseScopeText(t.Scope)
+			if !sequential {
+				// whatever else is in flight: a request that was challenged is retried with a token
+				// that answers the challenge it was given (not one given to another request)
+				for _, b := range log {
+					if b.Seq < a.Seq && b.Kind == "registry" && b.Call == a.Call && b.Host == a.Host && b.Status == 401 && b.Auth == "" &&
+						len(b.ChalHdr) > 0 && strings.HasPrefix(b.ChalHdr[0], "Bearer") && b.ChalText != "" && !aw.Subset(aw.ParseScopeText(b.ChalText), scope) {
+						v.Failf("retry-token-misses-challenge", "%s: call %d to %s was challenged for %q and came back with a token whose scope is %q", desc, a.Call, a.Host, b.ChalText, t.Scope)
+						return false
+					}
+				}
+			}
 			if sequential {
 				mintedThisCall := false
 				for _, b := range log {
@@ -321,6 +337,9 @@ func genScript(t *rapid.T) Script {
 		}
 		h.IssuedAgoMs = rapid.SampledFrom([]int{0, 0, 0, 400, 1500, 2500, 100000}).Draw(t, "issuedAgoMs")
 		h.Refuse = rapid.IntRange(0, 2).Draw(t, "refuse") == 0
+		if rapid.IntRange(0, 3).Draw(t, "slow401") == 0 {
+			h.Body401DelayMs = rapid.SampledFrom([]int{3, 10}).Draw(t, "body401DelayMs")
+		}
 		h.NoPost = rapid.IntRange(0, 2).Draw(t, "noPost") == 0
 		h.Rotate = rapid.IntRange(0, 3).Draw(t, "rotate") == 0
 		if rapid.IntRange(0, 9).Draw(t, "accessField") == 0 {
@@ -342,6 +361,7 @@ func genScript(t *rapid.T) Script {
 		if batch != 0 {
 			r.Batch = batch
 			r.SleepMs = 0
+			r.StartMs = rapid.SampledFrom([]int{0, 0, 2, 5, 8, 12}).Draw(t, "startMs")
 			if rapid.IntRange(0, 2).Draw(t, "endBatch") == 0 {
 				batch = 0
 			}
@@ -357,7 +377,7 @@ func init() {
 	prop = &vt.Prop[Script]{
 		ID:   "C10",
 		Name: "TokensSufficientFreshOwn",
-		Rule: "1-3 registry hosts (incl. two that differ only in port) with credential kind {none, basic, refresh token, static access token}, challenge scope {exactly required, superset, unrelated, none}, token lifetimes {absent, 0, 1, 2, 3, 300 s} or a sequence of mixed lifetimes per host, token servers that hand out tokens issued 0.4-100 s earlier and say so in issued_at (expires_in counts from there), token servers that grant / refuse over-wide requests with 401 / lack the POST endpoint / rotate refresh tokens / answer with the access_token field; timelines of 1-10 requests (GET/PUT on two repositories, pull+push requirements, desired scopes from a small lattice) separated by virtual sleeps {0, 0.5, 1, 1.5, 2.5, 61 s}, with optional concurrent batches; executed in a synctest bubble against an in-memory world that mints self-describing tokens and logs every arrival with the virtual time; oracle over the log: every bearer token presented to a host was issued for that host's service by the realm it named (or is its static token), is unexpired at arrival, covers the required scope when reused from cache and the challenge scope when acquired in this call; a cached token with >= 1 s left that covers the request => exactly one registry request and no token request; token requests ask for challenge+required+desired (the challenge scope alone after a refusal), with the challenge's own text when the union adds nothing; non-trivial = at least one cache reuse or one expiry; distinct = the script",
+		Rule: "1-3 registry hosts (incl. two that differ only in port) with credential kind {none, basic, refresh token, static access token}, challenge scope {exactly required, superset, unrelated, none}, token lifetimes {absent, 0, 1, 2, 3, 300 s} or a sequence of mixed lifetimes per host, token servers that hand out tokens issued 0.4-100 s earlier and say so in issued_at (expires_in counts from there), token servers that grant / refuse over-wide requests with 401 / lack the POST endpoint / rotate refresh tokens / answer with the access_token field; timelines of 1-10 requests (GET/PUT on two repositories, pull+push requirements, desired scopes from a small lattice) separated by virtual sleeps {0, 0.5, 1, 1.5, 2.5, 61 s}, with optional concurrent batches whose members start 0-12 ms apart while a quarter of the registries take 3-10 ms to deliver the body of a 401 (so that challenges to different requests overlap: each challenged request comes back with a token that answers its own challenge); executed in a synctest bubble against an in-memory world that mints self-describing tokens and logs every arrival with the virtual time; oracle over the log: every bearer token presented to a host was issued for that host's service by the realm it named (or is its static token), is unexpired at arrival, covers the required scope when reused from cache and the challenge scope when acquired in this call; a cached token with >= 1 s left that covers the request => exactly one registry request and no token request; token requests ask for challenge+required+desired (the challenge scope alone after a refusal), with the challenge's own text when the union adds nothing; non-trivial = at least one cache reuse or one expiry; distinct = the script",
 		Gen:  genScript,
 		Run:  run,
 	}
